@@ -1,10 +1,10 @@
 #!/bin/bash
-# tools/eval_mutant.sh <PROPERTY-ID> <N> [tier]   (sensitivity experiments; not part of any check)
+# tools/eval_mutant.sh <PROPERTY-ID> <N> [tier] [worktree] [label]   (sensitivity experiments; not part of any check)
 # Confirms a sub-agent's seeded change in its scratch worktree /tmp/mut_<ID> (compiles, suite
 # passes, demo fails with / passes without), then runs this framework's check for <ID> against the
 # changed worktree (SKA_REPO) and records everything under /verif/seeded/<ID>-<N>/.
 ID=$1; N=$2; TIER=${3:-quick}
-WT=/tmp/mut_$ID; OUT=$WT/OUT; DEST=/verif/seeded/$ID-$N
+WT=${4:-/tmp/mut_$ID}; LABEL=${5:-$ID-$N}; OUT=$WT/OUT; DEST=/verif/seeded/$LABEL
 [ -f $OUT/patch$N.diff ] || { echo "no patch $OUT/patch$N.diff"; exit 2; }
 cd $WT || exit 2
 git checkout -q -- . ; git apply $OUT/patch$N.diff || { echo "patch does not apply"; exit 2; }
@@ -20,14 +20,14 @@ demo_without=$(bash $OUT/demo$N.sh $WT >/tmp/mut_$ID.demo_without.log 2>&1; echo
 mkdir -p $DEST
 cp $OUT/patch$N.diff $DEST/patch.diff; cp $OUT/demo$N.sh $DEST/demo.sh; cp $OUT/notes$N.md $DEST/notes.md 2>/dev/null
 caught=no; [ $check_rc = 1 ] && caught=yes
-python3 - "$ID" "$N" "$build" "$suite" "$demo_with" "$demo_without" "$check_rc" "$caught" "$TIER" <<'PY'
+python3 - "$ID" "$N" "$build" "$suite" "$demo_with" "$demo_without" "$check_rc" "$caught" "$TIER" "$WT" "$LABEL" <<'PY'
 import json,sys
-ID,N,build,suite,dw,dwo,rc,caught,tier=sys.argv[1:]
+ID,N,build,suite,dw,dwo,rc,caught,tier,WT,LABEL=sys.argv[1:]
 log=open(f'/tmp/mut_{ID}.check.log').read().strip().splitlines()
 meta={"property":ID,"source":"independent sub-agent given only the property text and a scratch worktree",
  "needs_to_manifest":"see notes.md",
  "confirmed":{"build":build,"existing_suite":suite,"demo_exit_with_change":int(dw),"demo_exit_without_change":int(dwo)},
- "framework":{"command":f"SKA_REPO=/tmp/mut_{ID} ./check {ID} {tier}","exit":int(rc),"caught":caught=="yes","output":log[:6]}}
-json.dump(meta,open(f'/verif/seeded/{ID}-{N}/meta.json','w'),indent=1)
+ "framework":{"command":f"SKA_REPO={WT} ./check {ID} {tier}","exit":int(rc),"caught":caught=="yes","output":log[:6]}}
+json.dump(meta,open(f'/verif/seeded/{LABEL}/meta.json','w'),indent=1)
 print(json.dumps(meta,indent=1))
 PY
